@@ -1,7 +1,8 @@
 /* C18 harness: C API setters extracted from src/opnmidi.cpp on every run. */
 #include "api_contracts.h"
-unsigned g_error_texts, g_partial_resets; struct OPN2_MIDIPlayer g_device; int g_locked;
+unsigned g_error_texts, g_partial_resets, g_lfo_commits; struct OPN2_MIDIPlayer g_device; int g_locked;
 static void setVolumeScaleModel(OPNMIDI_VolumeModels volumeModel);
+static OPNMIDI_VolumeModels getVolumeScaleModel(void);
 static void setDeviceId(uint8_t id);
 #include "extracted.c"
 #define REACH(cond, name) __CPROVER_assert(!(cond), "REACH " name)
@@ -12,3 +13,29 @@ void h_opn2_setNumChips(void) { SETUP int r = opn2_setNumChips(dev, in_arg); REA
 void h_opn2_switchEmulator(void) { SETUP int r = opn2_switchEmulator(dev, in_arg); REACH(r == 0, "accepted"); REACH(r == -1 && dev != NULL, "refused"); }
 void h_opn2_setDeviceIdentifier(void) { SETUP int r = opn2_setDeviceIdentifier(dev, in_uarg); REACH(r == 0 && in_uarg == 15, "15 accepted"); REACH(r != 0 && in_uarg == 16, "16 refused"); }
 void h_opn2_setVolumeRangeModel(void) { SETUP g_locked = nondet_bool(); opn2_setVolumeRangeModel(dev, in_arg); REACH(dev && !g_locked && in_arg == OPNMIDI_VolumeModel_AUTO && g_synth.m_insBankSetup.volumeModel == VOLUME_Generic, "auto with generic bank"); REACH(dev && in_arg == OPNMIDI_VolumeModel_9X, "9x"); REACH(dev && in_arg == 77, "unknown model"); }
+
+/* ---- setter -> getter pairs (both real bodies): "a setter that reports success makes the matching getter return the
+ *      value set, or the bank default for -1/auto" ---- */
+#define PAIR_SETUP SETUP dev = &g_device; int before_errors = g_error_texts; (void)before_errors;
+void h_pair_lfoEnabled(void) { PAIR_SETUP opn2_setLfoEnabled(dev, in_arg); int r = opn2_getLfoEnabled(dev);
+    __CPROVER_assert(r == (in_arg < 0 ? (g_synth.m_insBankSetup.lfoEnable != 0) : (in_arg != 0)), "PAIR LFO enable: getter returns the value set, bank default for negative");
+    __CPROVER_assert(g_play.m_setup.lfoEnable == in_arg, "PAIR LFO enable stored in the setup"); REACH(in_arg < 0 && r == 1, "bank default on"); }
+void h_pair_lfoFrequency(void) { PAIR_SETUP opn2_setLfoFrequency(dev, in_arg); int r = opn2_getLfoFrequency(dev);
+    __CPROVER_assert(r == (in_arg < 0 ? (uint8_t)g_synth.m_insBankSetup.lfoFrequency : (uint8_t)in_arg), "PAIR LFO frequency: getter returns the value set, bank default for negative");
+    __CPROVER_assert(g_play.m_setup.lfoFrequency == in_arg, "PAIR LFO frequency stored in the setup"); REACH(in_arg == 7 && r == 7, "seven"); }
+void h_pair_channelAlloc(void) { PAIR_SETUP opn2_setChannelAllocMode(dev, in_arg); int r = opn2_getChannelAllocMode(dev);
+    __CPROVER_assert(r == ((in_arg < -1 || in_arg >= OPNMIDI_ChanAlloc_Count) ? OPNMIDI_ChanAlloc_AUTO : in_arg), "PAIR channel allocation mode: valid modes stick, anything else is AUTO"); REACH(r == 2, "mode 2"); }
+void h_pair_autoArpeggio(void) { PAIR_SETUP opn2_setAutoArpeggio(dev, in_arg); int r = opn2_getAutoArpeggio(dev);
+    __CPROVER_assert(r == (in_arg != 0), "PAIR auto arpeggio"); REACH(r == 1, "on"); }
+void h_pair_flags(void) { PAIR_SETUP int b = nondet_int(), c = nondet_int();
+    opn2_setScaleModulators(dev, in_arg); opn2_setSoftPanEnabled(dev, b); opn2_setFullRangeBrightness(dev, c);
+    __CPROVER_assert(g_synth.m_scaleModulators == (in_arg != 0) && g_play.m_setup.ScaleModulators == in_arg, "PAIR scale modulators in force and stored");
+    __CPROVER_assert(g_synth.m_softPanning == (b != 0), "PAIR soft panning in force");
+    __CPROVER_assert(g_play.m_setup.fullRangeBrightnessCC74 == (c != 0), "PAIR full-range brightness stored"); REACH(in_arg && !b && c, "mixed"); }
+void h_pair_volumeModel(void) { PAIR_SETUP g_locked = 0; __CPROVER_assume(g_synth.m_insBankSetup.volumeModel >= VOLUME_Generic && g_synth.m_insBankSetup.volumeModel <= VOLUME_9X);
+    opn2_setVolumeRangeModel(dev, in_arg); int r = opn2_getVolumeRangeModel(dev);
+    if(in_arg >= OPNMIDI_VolumeModel_Generic && in_arg <= OPNMIDI_VolumeModel_9X) __CPROVER_assert(r == in_arg, "PAIR volume model: getter returns the model set");
+    if(in_arg == OPNMIDI_VolumeModel_AUTO) __CPROVER_assert(r == g_synth.m_insBankSetup.volumeModel + 1, "PAIR volume model AUTO: getter returns the loaded bank's model");
+    REACH(in_arg == OPNMIDI_VolumeModel_AUTO && r == OPNMIDI_VolumeModel_DMX, "auto dmx"); }
+void h_pair_numChips(void) { PAIR_SETUP int r = opn2_setNumChips(dev, in_arg); int g = opn2_getNumChips(dev);
+    if(r == 0) __CPROVER_assert(g == in_arg, "PAIR chip count: getter returns the accepted value"); REACH(r == 0 && g == 100, "hundred"); }
